@@ -10,6 +10,12 @@ then re-read against the new text and the recording refreshed).
 -/
 import PcGen.SrcMirrorSimpleAlgsObl
 import PcGen.SrcMirrorParamsObl
+import PcGen.SrcMirrorHardLoopsObl
+import PcGen.SrcMirrorLeafLoopsObl
+import PcGen.SrcMirrorEasyLoopsObl
+import PcGen.SrcMirrorPhiObl
+import PcGen.SrcMirrorTablesObl
+import PcGen.SrcMirrorBalancersObl
 
 namespace Pc.C02Src
 
@@ -20,7 +26,31 @@ theorem models_mirror_source_SimpleAlgs : Pc.SrcMirror.SimpleAlgs.AllText := Pc.
     compositions proved in C02Top / C02Closed mirror these texts -/
 theorem models_mirror_source_Params : Pc.SrcMirror.Params.AllText := Pc.SrcMirror.Params.all_text
 
+/-- group `HardLoops`: the closed end-to-end theorems (C02Closed*) rest on the models of these functions -/
+theorem models_mirror_source_HardLoops : Pc.SrcMirror.HardLoops.AllText := Pc.SrcMirror.HardLoops.all_text
+
+/-- group `LeafLoops`: the closed end-to-end theorems (C02Closed*) rest on the models of these functions -/
+theorem models_mirror_source_LeafLoops : Pc.SrcMirror.LeafLoops.AllText := Pc.SrcMirror.LeafLoops.all_text
+
+/-- group `EasyLoops`: the closed end-to-end theorems (C02Closed*) rest on the models of these functions -/
+theorem models_mirror_source_EasyLoops : Pc.SrcMirror.EasyLoops.AllText := Pc.SrcMirror.EasyLoops.all_text
+
+/-- group `Phi`: the closed end-to-end theorems (C02Closed*) rest on the models of these functions -/
+theorem models_mirror_source_Phi : Pc.SrcMirror.Phi.AllText := Pc.SrcMirror.Phi.all_text
+
+/-- group `Tables`: the closed end-to-end theorems (C02Closed*) rest on the models of these functions -/
+theorem models_mirror_source_Tables : Pc.SrcMirror.Tables.AllText := Pc.SrcMirror.Tables.all_text
+
+/-- group `Balancers`: the closed end-to-end theorems (C02Closed*) rest on the models of these functions -/
+theorem models_mirror_source_Balancers : Pc.SrcMirror.Balancers.AllText := Pc.SrcMirror.Balancers.all_text
+
 end Pc.C02Src
 
 #print axioms Pc.C02Src.models_mirror_source_SimpleAlgs
 #print axioms Pc.C02Src.models_mirror_source_Params
+#print axioms Pc.C02Src.models_mirror_source_HardLoops
+#print axioms Pc.C02Src.models_mirror_source_LeafLoops
+#print axioms Pc.C02Src.models_mirror_source_EasyLoops
+#print axioms Pc.C02Src.models_mirror_source_Phi
+#print axioms Pc.C02Src.models_mirror_source_Tables
+#print axioms Pc.C02Src.models_mirror_source_Balancers
